@@ -48,7 +48,7 @@ Lemma toy_locality : forall P P' sec f,
   /\ tredo P' sec f = tredo P sec f /\ tcacheable P' sec f = tcacheable P sec f
   /\ terror P' sec f = terror P sec f.
 Proof.
-  intros P P' sec f H. unfold temit, tdiags, tredo, tcacheable, terror, tdeps in *.
+  intros P P' sec f H. unfold tredo. unfold temit, tdiags, tcacheable, terror, tdeps in *.
   pose proof (H f (or_introl eq_refl)) as Hf.
   destruct (f =? 2) eqn:E.
   - pose proof (H 1 (or_intror (or_introl eq_refl))) as H1. simpl. rewrite !lookup_dom_iff. rewrite Hf, H1. repeat split.
@@ -94,26 +94,34 @@ Definition good_history : list (step N tout) :=
   [Build _ _; Edit _ _ 1 11; Check _ _; Build _ _; SetCfg _ _ cfgB; Build _ _; DelOut _ _ 2; Build _ _;
    Edit _ _ 2 7; Check _ _].
 
-Ltac no_restore :=
-  let f := fresh in let H1 := fresh in let H2 := fresh in
-  intros f H1 H2; exfalso; apply H2; vm_compute in H1; vm_compute; tauto.
+Ltac conj_split := repeat match goal with |- _ /\ _ => split end.
+
+Ltac dp_solve :=
+  unfold deps_present; vm_compute s_snap; lazy beta iota; try exact I;
+  let f := fresh "f" in let Hf := fresh "Hf" in let Hn := fresh "Hn" in
+  let g := fresh "g" in let Hg := fresh "Hg" in
+  intros f Hf Hn g Hg; vm_compute in Hf;
+  destruct Hf as [<-|[<-|[]]]; vm_compute in Hg; try contradiction;
+  destruct Hg as [<-|[]]; vm_compute; tauto.
+
+(* a re-analysed file f whose closure member g has an output older than its source *)
+Ltac stale_member Hcl g :=
+  let t := fresh "t" in let H1 := fresh "H1" in let H4 := fresh "H4" in
+  destruct (Hcl g) as [t [H1 [_ [_ H4]]]]; [vm_compute; tauto|];
+  vm_compute in H1; inversion H1; subst; vm_compute in H4; apply H4; reflexivity.
 
 Lemma good_history_safe : tsafe (tinit P12 cfgA) good_history.
 Proof.
-  unfold good_history. cbn [safe step_ok]. repeat split.
-  all: try exact I.
-  all: try (unfold deps_present; vm_compute s_snap; try exact I).
-  all: try (intros f Hf Hn g Hg; vm_compute in Hf; vm_compute in Hg;
-            destruct Hf as [<-|[<-|[]]]; vm_compute in Hg; try contradiction;
-            destruct Hg as [<-|[]]; vm_compute; tauto).
-  - (* check after the edit of 1: file 1's output is older than its source *)
+  unfold good_history. cbn [safe step_ok]. conj_split.
+  all: try match goal with |- True => exact I end.
+  all: try match goal with |- deps_present _ _ _ _ _ _ _ _ => dp_solve end.
+  - (* check after the edit of 1: the output of 1 is older than its source, and 1 is in the
+       closure of both re-analysed files *)
+    intros f Hf Hin Hcl. vm_compute in Hf. destruct Hf as [<-|[<-|[]]]; stale_member Hcl 1.
+  - (* check after the edit of 2: only 2 is re-analysed, and its own output is stale *)
     intros f Hf Hin Hcl. vm_compute in Hf. destruct Hf as [<-|[<-|[]]].
-    + destruct (Hcl 1 (or_introl eq_refl)) as [t [H1 [_ [_ H4]]]]. vm_compute in H1. inversion H1; subst. vm_compute in H4. apply H4. reflexivity.
-    + destruct (Hcl 1 (or_intror (or_introl eq_refl))) as [t [H1 [_ [_ H4]]]]. vm_compute in H1. inversion H1; subst. vm_compute in H4. apply H4. reflexivity.
-  - (* check after the edit of 2 *)
-    intros f Hf Hin Hcl. vm_compute in Hf. destruct Hf as [<-|[<-|[]]].
-    + vm_compute in Hin. destruct Hin as [Hin|[]]. discriminate.
-    + destruct (Hcl 2 (or_introl eq_refl)) as [t [H1 [_ [_ H4]]]]. vm_compute in H1. inversion H1; subst. vm_compute in H4. apply H4. reflexivity.
+    + vm_compute in Hin. destruct Hin as [Hin|[]]. discriminate Hin.
+    + stale_member Hcl 2.
 Qed.
 
 (* and it exercises restores: the last build restores file 1, the last check restores file 1 *)
